@@ -522,6 +522,44 @@ def h_finfo(ctx, rng, fe, thorough):
         if first is None:
             first = ci % 4
             dump(h, first, rng, full=rng.random() < 0.5)
+    # the ACTION protocol: "action = eof ? LZMA_FINISH : LZMA_RUN" (eof known from the size / from a short read) must give
+    # the whole-buffer result for every read size, also when LZMA_SEEK_NEEDED follows the read that reached the end of the file
+    if len(data) <= 30000:
+        sizes = [1, 7, 64, 4096, len(data), len(data) + 3, rng.choice([2, 3, 12, 13, 100, 8192, 8193])]
+    else:
+        sizes = [rng.choice([7, 64]), 4096, len(data), rng.choice([8192, 8193, 20000])]
+    for ch in sizes:
+        for opn in (("finfof", "finfog") if rng.random() < 0.7 else (rng.choice(["finfof", "finfog"]),)):
+            line = "%s %d %d %d %d %s" % (opn, rng.randrange(4), 1 << 40, ch, 0 if rng.random() < 0.7 else rng.randrange(1, 1 << 30), hx)
+            fe[line] = ix
+            h.do(line)
+            ctx.count("finfo:finish-at-eof chunk%s" % ("<file" if ch < len(data) else ">=file"))
+    # stale per-file state: an abandoned or failed decoding that had already counted Stream Padding, then another file on the
+    # SAME lzma_stream (only meaningful in the `reuse 1` half of the histories; harmless otherwise)
+    if rng.random() < 0.6:
+        ix3 = [x.copy() for x in ix]
+        ix3[-1].padding = 4 * rng.choice([1, 2, 3, 2047, 2048, 2049, 2050, 4100])
+        d3 = R.build_file(ix3, rng)
+        kind = rng.random()
+        if kind < 0.4:
+            # abandoned at the second seek request (big padding: the first 8 KiB window was all padding)
+            h.do("finfoa 6 %d %d 0 %s" % (1 << 40, rng.choice([1, 7, 64, 4096]), d3.hex()))
+        elif kind < 0.8:
+            # fails after the padding was counted: Stream Footer magic / CRC32 / Backward Size damaged
+            bad = bytearray(d3)
+            fpos = len(d3) - ix3[-1].padding - 1 - rng.randrange(12)
+            bad[fpos] ^= 1 << rng.randrange(8)
+            h.do("%s 6 %d %d 0 %s" % (rng.choice(["finfo", "finfof"]), 1 << 40, rng.choice([1, 7, 64, 4096, len(bad)]), bytes(bad).hex()))
+        else:
+            # memory limit error in the middle
+            h.do("finfo 6 %d %d 0 %s" % (rng.choice([1, 408, 500]), rng.choice([7, 64, len(d3)]), d3.hex()))
+        ctx.count("finfo:second-file-after-abandoned-or-failed-decode")
+        for opn, ch in ((rng.choice(["finfo", "finfof", "finfog"]), rng.choice([1, 7, 64, 4096, len(data)])),
+                        ("finfo", len(data))):
+            line = "%s 7 %d %d 0 %s" % (opn, 1 << 40, ch, hx)
+            fe[line] = ix
+            h.do(line)
+            h.do("iter 7 1")
     # memory limit
     line = "finfo 4 %d %d 0 %s" % (rng.choice([0, 407, 408, 500, 8696, 8992, 9000, 20000]), rng.choice([1, 50, len(data)]), hx)
     h.do(line)
@@ -658,7 +696,7 @@ def gen_histories(ctx, fe):
 def judge_unpredicted(op, out):
     """Sanity conditions for ops the reference does not predict (malformed files): returns an error text or None."""
     t = op.split()
-    if t[0] == "finfo":
+    if t[0] in ("finfo", "finfof", "finfog"):
         o = out.split()
         if len(o) < 3:
             return "malformed harness answer"
